@@ -332,21 +332,30 @@ impl<'a> Parser<'a> {
         // consume string token
         self.advance();
 
-        // read the string, skipping any escape sequences
-        let mut b = value.chars().skip(1);
+        // read the string, replacing every escape sequence with its actual (single-char) value
+        // in one pass from left to right, so that the character after an escaped backslash is left alone
         let mut s = String::with_capacity(value.len());
-        for ch in value.chars() {
-            let next = b.next();
-            if ch == '\\' && (next == Some('"') || next == Some('\\')) {
+        let mut chars = value.chars();
+        while let Some(ch) = chars.next() {
+            if ch != '\\' {
+                s.push(ch);
                 continue;
             }
 
-            s.push(ch);
+            match chars.clone().next() {
+                Some('"') => s.push('"'),
+                Some('\\') => s.push('\\'),
+                Some('n') => s.push('\n'),
+                Some('t') => s.push('\t'),
+                // not an escape sequence: keep the backslash and look at the next character as usual
+                _ => {
+                    s.push(ch);
+                    continue;
+                }
+            }
+            chars.next();
         }
 
-        // Since program came from user input
-        // We have to replace escape sequences with their actual (single-char) value
-        s = s.replace("\\n", "\n").replace("\\t", "\t");
         Expr::String { value: s }
     }
 
